@@ -98,7 +98,7 @@ extern ssize_t mpt_history_push(MPT_STRUCT(history) *hist, size_t len, const voi
 		}
 		ret = 0;
 		if ((len -= min)
-		    && (ret = mpt_history_values(hist, len, mt + 1)) < 0) {
+		    && (ret = mpt_history_values(hist, len, mb + 1)) < 0) {
 			return ret;
 		}
 		return ret + min;
